@@ -765,6 +765,21 @@ class Interp:
             self._display_length(st, target.id, value)
             if self._never_none(value, fr):
                 st.facts[('isnone', target.id)] = False  # a fresh instance, a class
+            if isinstance(value, ast.Subscript) and isinstance(
+                    value.value, (ast.Call, ast.Await)) and isinstance(
+                    value.slice, ast.Constant) and isinstance(value.slice.value, int):
+                # `x = self._helper()[0]`: the item of the pair the helper returned
+                pair = self._helper_returned(value.value, st, stored=value)
+                if isinstance(pair, ast.Tuple) and not any(
+                        isinstance(e, ast.Starred) for e in pair.elts) and \
+                        -len(pair.elts) <= value.slice.value < len(pair.elts):
+                    item = pair.elts[value.slice.value]
+                    self._constant_flag(st, target.id, item)
+                    self._returned_facts(st, target.id, item)
+            copied = _copied_source(value) if value is not None else None
+            if copied is not None and st.facts.get(('truth', copied)) is not None:
+                # a fresh copy is empty exactly when the sequence it was made from is
+                st.facts[('truth', target.id)] = st.facts[('truth', copied)]
             member = self._enum_member(value, fr.frame.fn)
             if member is not None:
                 st.facts[('enumval', target.id)] = member
@@ -868,13 +883,15 @@ class Interp:
             st.facts[('truth', name)] = bool(value.elts)
 
     @staticmethod
-    def _helper_returned(value, st: St):
-        """the return expression of the helper that was just run in place for ``value``"""
+    def _helper_returned(value, st: St, stored=None):
+        """the return expression of the helper that was just run in place for ``value``
+        (``stored``: the expression being stored, when ``value`` is only a part of it)"""
         if not isinstance(value, (ast.Call, ast.Await)) or not st.events:
             return None
         at = len(st.events) - 1
         while at > 0 and at > len(st.events) - 4 and (
-                (st.events[at].kind == 'store' and st.events[at].data.get('value') is value)
+                (st.events[at].kind == 'store' and st.events[at].data.get('value') in (
+                    value, stored if stored is not None else value))
                 or (st.events[at].kind in ('test', 'retval', 'assert')
                     and st.events[at].node is value and st.events[at].data.get('inlined'))):
             at -= 1  # the store of the result / the truth of it, recorded after the helper
